@@ -4,8 +4,8 @@ package jsonapi
 
 // Contracts for types, attributes and the attribute-kind tables (C14, C17).
 
-//@ spec validKind(t int) = AttrTypeString <= t && t <= AttrTypeBytes
-//@ spec kindName(t int) = ite(t == AttrTypeString, "string", ite(t == AttrTypeInt, "int", ite(t == AttrTypeInt8, "int8", ite(t == AttrTypeInt16, "int16",
+//@ spec pure validKind(t int) = AttrTypeString <= t && t <= AttrTypeBytes
+//@ spec pure kindName(t int) = ite(t == AttrTypeString, "string", ite(t == AttrTypeInt, "int", ite(t == AttrTypeInt8, "int8", ite(t == AttrTypeInt16, "int16",
 //@   | ite(t == AttrTypeInt32, "int32", ite(t == AttrTypeInt64, "int64", ite(t == AttrTypeUint, "uint", ite(t == AttrTypeUint8, "uint8",
 //@   | ite(t == AttrTypeUint16, "uint16", ite(t == AttrTypeUint32, "uint32", ite(t == AttrTypeUint64, "uint64", ite(t == AttrTypeBool, "bool",
 //@   | ite(t == AttrTypeTime, "time", ite(t == AttrTypeBytes, "bytes", ""))))))))))))))
@@ -17,11 +17,11 @@ package jsonapi
 //@ ensures invalid: !validKind(t) ==> result == ""
 //@ ensures nonempty: validKind(t) ==> result != ""
 
-//@ spec baseKind(s string) = ite(s == "string", AttrTypeString, ite(s == "int", AttrTypeInt, ite(s == "int8", AttrTypeInt8, ite(s == "int16", AttrTypeInt16,
+//@ spec pure baseKind(s string) = ite(s == "string", AttrTypeString, ite(s == "int", AttrTypeInt, ite(s == "int8", AttrTypeInt8, ite(s == "int16", AttrTypeInt16,
 //@   | ite(s == "int32", AttrTypeInt32, ite(s == "int64", AttrTypeInt64, ite(s == "uint", AttrTypeUint, ite(s == "uint8", AttrTypeUint8,
 //@   | ite(s == "uint16", AttrTypeUint16, ite(s == "uint32", AttrTypeUint32, ite(s == "uint64", AttrTypeUint64, ite(s == "bool", AttrTypeBool,
 //@   | ite(s == "time.Time" || s == "time", AttrTypeTime, ite(s == "[]uint8" || s == "[]byte" || s == "bytes", AttrTypeBytes, AttrTypeInvalid))))))))))))))
-//@ spec stripStar(t string) = ite(prefixof("*", t), substr(t, 1, len(t) - 1), t)
+//@ spec pure stripStar(t string) = ite(prefixof("*", t), substr(t, 1, len(t) - 1), t)
 
 //@ func GetAttrType
 //@ props C14 C17
